@@ -282,6 +282,21 @@ def o203(ctx):
     lp = loops[0]
     # sorted by distance before the loop; tuple layout
     before = fn.body[:fn.body.index(lp)]
+    def guarded_sorts(stmts):
+        """`x.sort()` at the top level, or under `if x:` / `if len(x) > 0:` (an empty list needs no sorting)"""
+        out = []
+        for s_ in stmts:
+            if isinstance(s_, ast.If) and not s_.orelse:
+                t_ = s_.test
+                nonempty = (isinstance(t_, ast.Name) and t_.id == src(lp.iter)) or \
+                    (empty_test_polarity(t_) is False and src(lp.iter) in {x.id for x in ast.walk(t_) if isinstance(x, ast.Name)})
+                if nonempty:
+                    out.extend(guarded_sorts(s_.body))
+            else:
+                out.append(s_)
+        return out
+
+    before = guarded_sorts(before)
     sorts = [s for s in before if isinstance(s, ast.Expr) and isinstance(s.value, ast.Call) and src(s.value.func).endswith(".sort")
              and src(s.value.func).split(".")[0] == src(lp.iter)] + \
             [s for s in before if isinstance(s, ast.Assign) and "sorted(" in src(s.value) and src(s.targets[0]) == src(lp.iter)]
